@@ -2,7 +2,7 @@
 //! agent with a tiny queue, driven by a script; observation = which offered
 //! changes the bookkeeping knows after every step.
 use crate::{agentkit, c04::actor_of, util::Toks};
-use klukai_agent::agent::verif_hooks::{handle_changes, VERIF_FAIL_BATCHES, VERIF_INGEST_STATE};
+use klukai_agent::agent::verif_hooks::{handle_changes, VERIF_FAIL_BATCHES, VERIF_INGEST_LOOPS, VERIF_INGEST_STATE};
 use klukai_types::{
     actor::ActorId,
     agent::Bookie,
@@ -81,7 +81,17 @@ pub fn ingest(t: &mut Toks) -> String {
         let agent = kit.agent.clone();
         let bookie = Bookie::new(Default::default());
         let rx_changes = kit.opts.rx_changes;
+        VERIF_INGEST_LOOPS.store(0, Ordering::SeqCst);
         let h = tokio::spawn(handle_changes(agent.clone(), bookie.clone(), rx_changes, kit.tripwire.clone()));
+        // the handler's interval ticks once immediately: let that tick be consumed on an empty
+        // queue (second round of the loop) before anything is offered, or it would later spawn a
+        // batch next to the one in flight
+        {
+            let t0 = Instant::now();
+            while VERIF_INGEST_LOOPS.load(Ordering::SeqCst) < 2 && t0.elapsed() < Duration::from_secs(20) {
+                tokio::time::sleep(Duration::from_millis(1)).await;
+            }
+        }
         let me = agent.actor_id();
         let mut offered: Vec<Off> = vec![];
         let mut held = None;
